@@ -15,6 +15,8 @@ func init() {
 		ruleDef{"C09.R2", c09r2},
 		ruleDef{"C09.R3", c09r3},
 		ruleDef{"C09.R4", c09r4},
+		// the standard library strips client-supplied Forwarded / X-Forwarded-* by canonical key: HTTP/2 request headers must be stored under canonical keys
+		ruleDef{"C05.R5", c05r5},
 	)
 }
 
